@@ -355,6 +355,10 @@ struct Local {
     violations: BTreeMap<String, Found>,
     samples: Vec<Sample>,
     machinery_errors: Vec<String>,
+    /// violations (`property|key`, message) that did not come back when their
+    /// schedule was replayed: a machinery error unless the same property has a
+    /// confirmed violation as well (see `explore_from`)
+    flaky: Vec<(String, String)>,
 }
 
 struct RunResult {
@@ -593,6 +597,7 @@ fn explore_from<F: Fn() -> Outcome + Sync>(cfg: &Config, f: &F, items: Vec<Vec<u
     let mut states = HashSet::new();
     let mut obs = HashSet::new();
     let mut ntobs = HashSet::new();
+    let mut flaky: Vec<(String, String)> = Vec::new();
     for l in locals {
         st.executions += l.executions;
         st.steps += l.steps;
@@ -619,6 +624,17 @@ fn explore_from<F: Fn() -> Outcome + Sync>(cfg: &Config, f: &F, items: Vec<Vec<u
         }
         st.samples.extend(l.samples);
         st.machinery_errors.extend(l.machinery_errors);
+        flaky.extend(l.flaky);
+    }
+    // A violation key that does not replay is a harness problem - unless the
+    // same property also has a violation that does: then the code under test
+    // is at fault and merely behaves differently from run to run.
+    for (k, msg) in flaky {
+        let prop = k.split('|').next().unwrap_or("").to_string();
+        let confirmed = st.violations.values().any(|v| v.property == prop);
+        if !confirmed && !st.machinery_errors.contains(&msg) {
+            st.machinery_errors.push(msg);
+        }
     }
     st.samples.sort_by(|a, b| a.choices.cmp(&b.choices));
     st.samples.truncate(cfg.samples.max(1));
@@ -765,12 +781,42 @@ fn worker<F: Fn() -> Outcome + Sync>(
                                 && matches!((&r1.outcome, &r2.outcome), (Ok(a), Ok(b))
                                     if a.violations.iter().any(|x| x.key == v.key && x.property == v.property)
                                     && b.violations.iter().any(|x| x.key == v.key && x.property == v.property));
-                            if !same {
-                                local.machinery_errors.push(format!(
-                                    "violation {} did not replay identically (choices {:?})",
-                                    k, choices
-                                ));
-                                shared.stop.store(true, Ordering::Relaxed);
+                            // The replays differ.  If the choice vector stays valid and the
+                            // violation itself comes back in most of a handful of further
+                            // replays, the code under test is nondeterministic under one
+                            // schedule (e.g. it depends on `HashMap`'s per-instance seed): that
+                            // is still a violation, and it is reported with a note.  Anything
+                            // else is a harness problem and never a verdict.
+                            let mut reproduced_anyway: Option<(usize, Vec<String>)> = None;
+                            if !same && r1.diverged.is_none() && r2.diverged.is_none() {
+                                let has = |r: &RunResult| matches!(&r.outcome, Ok(a) if a.violations.iter().any(|x| x.key == v.key && x.property == v.property));
+                                let mut hits = usize::from(has(&r1)) + usize::from(has(&r2));
+                                let mut sample = if has(&r1) { Some(r1.trace.clone()) } else if has(&r2) { Some(r2.trace.clone()) } else { None };
+                                let mut diverged = false;
+                                for _ in 0..3 {
+                                    let r = run_one(f, choices.clone(), item_len, true, &mut local.states, &mut local.states_capped);
+                                    diverged |= r.diverged.is_some();
+                                    if has(&r) {
+                                        hits += 1;
+                                        sample.get_or_insert(r.trace.clone());
+                                    }
+                                }
+                                if !diverged && hits >= 3 {
+                                    let mut t = sample.unwrap_or_default();
+                                    t.push(format!("(note: the violation came back in {} of 5 replays of this schedule; their traces differ - the code under test is not deterministic under a fixed schedule)", hits));
+                                    reproduced_anyway = Some((hits, t));
+                                }
+                            }
+                            if let Some((_, t)) = reproduced_anyway {
+                                let count = local.violations.get(&k).map(|e| e.count).unwrap_or(1);
+                                let mut c = cand;
+                                c.trace = t;
+                                c.count = count;
+                                local.violations.insert(k, c);
+                            } else if !same {
+                                if !local.flaky.iter().any(|(fk, _)| *fk == k) {
+                                    local.flaky.push((k.clone(), format!("violation {} did not replay identically (choices {:?})", k, choices)));
+                                }
                             } else {
                                 let count = local.violations.get(&k).map(|e| e.count).unwrap_or(1);
                                 let mut c = cand;
